@@ -298,7 +298,8 @@ func (e *SendSideBWE) onDelayUpdate(delayStats DelayStats) {
 
 	lossStats := e.lossController.getEstimate(delayStats.TargetBitrate)
 	bitrateChanged := false
-	bitrate := min(delayStats.TargetBitrate, lossStats.TargetBitrate)
+	// the loss based estimate has its own fixed bounds; keep the result within the configured ones
+	bitrate := clampInt(min(delayStats.TargetBitrate, lossStats.TargetBitrate), e.minBitrate, e.maxBitrate)
 	if bitrate != e.latestBitrate {
 		bitrateChanged = true
 		e.latestBitrate = bitrate
